@@ -1871,6 +1871,304 @@ fn run_audit_as(case: &Value) -> Value {
            "obs": obs})
 }
 
+
+// ---------------------------------------------------------------------------
+// aggregate kind (C16)
+
+fn run_aggregate(case: &Value) -> Value {
+    use crate::errors::AggregateError;
+    let srcs = case["sources"].as_array().unwrap();
+    let mut files: Vec<(String, AuditsFile)> = Vec::new();
+    for s in srcs {
+        let url = s["url"].as_str().unwrap();
+        match crate::storage::foreign_audit_source_to_local_warn(
+            url,
+            crate::errors::SourceFile::new(url, s["text"].as_str().unwrap().to_owned()),
+        ) {
+            Ok(f) => files.push((url.to_owned(), f)),
+            Err(e) => {
+                return json!({"status": "refused", "error_kind": "TomlParse", "error": format!("{e:?}")})
+            }
+        }
+    }
+    // interning: crate names, criteria names, description / url strings, source urls
+    let mut names = BTreeSet::new();
+    let mut crits = BTreeSet::new();
+    let mut texts = BTreeSet::new();
+    let mut urls: Vec<String> = files.iter().map(|(u, _)| u.clone()).collect();
+    for (_, f) in &files {
+        names.extend(f.audits.keys().cloned());
+        names.extend(f.wildcard_audits.keys().cloned());
+        names.extend(f.trusted.keys().cloned());
+        for (n, c) in &f.criteria {
+            crits.insert(n.clone());
+            crits.extend(c.implies.iter().map(|s| s.to_string()));
+            texts.extend(c.description.iter().cloned());
+            texts.extend(c.description_url.iter().cloned());
+            for a in &c.aggregated_from {
+                if !urls.contains(&a.to_string()) {
+                    urls.push(a.to_string());
+                }
+            }
+        }
+        let mut add_from = |l: &Vec<crate::serialization::spanned::Spanned<String>>| {
+            for a in l {
+                if !urls.contains(&a.to_string()) {
+                    urls.push(a.to_string());
+                }
+            }
+        };
+        for a in f.audits.values().flatten() {
+            add_from(&a.aggregated_from);
+        }
+        for a in f.wildcard_audits.values().flatten() {
+            add_from(&a.aggregated_from);
+        }
+        for a in f.trusted.values().flatten() {
+            add_from(&a.aggregated_from);
+        }
+    }
+    let names: Vec<String> = names.into_iter().collect();
+    let crits: Vec<String> = crits.into_iter().collect();
+    let texts: Vec<String> = texts.into_iter().collect();
+    let nid = |n: &str| names.iter().position(|x| x == n).unwrap() as u64;
+    let cid = |n: &str| crits.iter().position(|x| x == n).unwrap() as u64;
+    let tid = |n: &str| texts.iter().position(|x| x == n).unwrap() as u64;
+    let uid = |n: &str| urls.iter().position(|x| x == n).unwrap() as u64;
+    let from = |l: &Vec<crate::serialization::spanned::Spanned<String>>| -> Value {
+        Value::Array(l.iter().map(|a| json!(uid(a))).collect())
+    };
+    // entry ids: source index * 100000 + table * 10000 + crate * 100 + index
+    let eid = |si: usize, table: u64, krate: &str, i: usize| -> u64 {
+        si as u64 * 100000 + table * 10000 + nid(krate) * 100 + i as u64
+    };
+    let m_sources: Vec<Value> = files
+        .iter()
+        .enumerate()
+        .map(|(si, (url, f))| {
+            let crit: Vec<Value> = f
+                .criteria
+                .iter()
+                .map(|(n, e)| {
+                    c(
+                        "Build_agg_crit",
+                        vec![
+                            json!(cid(n)),
+                            opt(e.description.as_ref().map(|d| json!(tid(d)))),
+                            opt(e.description_url.as_ref().map(|d| json!(tid(d)))),
+                            Value::Array(e.implies.iter().map(|i| json!(cid(i))).collect()),
+                            from(&e.aggregated_from),
+                        ],
+                    )
+                })
+                .collect();
+            let audits: Vec<Value> = f
+                .audits
+                .iter()
+                .map(|(k, l)| {
+                    pair(
+                        json!(nid(k)),
+                        Value::Array(
+                            l.iter()
+                                .enumerate()
+                                .map(|(i, a)| {
+                                    c(
+                                        "Build_agg_entry",
+                                        vec![json!(eid(si, 0, k, i)), json!(a.importable), from(&a.aggregated_from)],
+                                    )
+                                })
+                                .collect(),
+                        ),
+                    )
+                })
+                .collect();
+            let wild: Vec<Value> = f
+                .wildcard_audits
+                .iter()
+                .map(|(k, l)| {
+                    pair(
+                        json!(nid(k)),
+                        Value::Array(
+                            l.iter()
+                                .enumerate()
+                                .map(|(i, a)| {
+                                    c(
+                                        "Build_agg_entry",
+                                        vec![json!(eid(si, 1, k, i)), json!(true), from(&a.aggregated_from)],
+                                    )
+                                })
+                                .collect(),
+                        ),
+                    )
+                })
+                .collect();
+            let trusted: Vec<Value> = f
+                .trusted
+                .iter()
+                .map(|(k, l)| {
+                    pair(
+                        json!(nid(k)),
+                        Value::Array(
+                            l.iter()
+                                .enumerate()
+                                .map(|(i, a)| {
+                                    c(
+                                        "Build_agg_entry",
+                                        vec![json!(eid(si, 2, k, i)), json!(true), from(&a.aggregated_from)],
+                                    )
+                                })
+                                .collect(),
+                        ),
+                    )
+                })
+                .collect();
+            pair(
+                json!(uid(url)),
+                c(
+                    "Build_agg_file",
+                    vec![
+                        Value::Array(crit),
+                        Value::Array(audits),
+                        Value::Array(wild),
+                        Value::Array(trusted),
+                    ],
+                ),
+            )
+        })
+        .collect();
+
+    let result = catch_unwind(AssertUnwindSafe(|| crate::do_aggregate_audits(files.clone())));
+    let obs;
+    let mut extra = serde_json::Map::new();
+    match result {
+        Err(p) => return json!({"status": "panic", "panic": panic_message(&p)}),
+        Ok(Err(errs)) => {
+            let mut items: Vec<String> = errs
+                .errors
+                .iter()
+                .map(|e| match e {
+                    AggregateError::CriteriaDescriptionMismatch(m) => {
+                        sp("desc", vec![cid(&m.criteria_name).to_string()])
+                    }
+                    AggregateError::ImpliesMismatch(m) => sp("implies", vec![cid(&m.criteria_name).to_string()]),
+                })
+                .collect();
+            items.sort();
+            obs = sp("agg", vec![sp("err", items)]);
+        }
+        Ok(Ok(out)) => {
+            // identify every output entry by its source entry
+            let find_audit = |k: &str, a: &AuditEntry| -> u64 {
+                let src = a.aggregated_from.last().map(|s| s.to_string()).unwrap_or_default();
+                let si = files.iter().position(|(u, _)| *u == src).expect("harness: unknown source tag");
+                let l = &files[si].1.audits[k];
+                let i = l
+                    .iter()
+                    .position(|b| b.kind == a.kind && b.criteria == a.criteria && b.notes == a.notes && b.who == a.who)
+                    .expect("harness: aggregated audit not found in its source");
+                eid(si, 0, k, i)
+            };
+            let sfrom = |l: &Vec<crate::serialization::spanned::Spanned<String>>| -> String {
+                sp("from", l.iter().map(|a| uid(a).to_string()).collect())
+            };
+            let audits: Vec<String> = out
+                .audits
+                .iter()
+                .map(|(k, l)| {
+                    let mut v = vec![nid(k).to_string()];
+                    let mut items: Vec<String> = l
+                        .iter()
+                        .map(|a| sp("e", vec![find_audit(k, a).to_string(), sfrom(&a.aggregated_from)]))
+                        .collect();
+                    items.sort();
+                    v.extend(items);
+                    sp("p", v)
+                })
+                .collect();
+            let wild: Vec<String> = out
+                .wildcard_audits
+                .iter()
+                .map(|(k, l)| {
+                    let mut v = vec![nid(k).to_string()];
+                    let mut items: Vec<String> = l
+                        .iter()
+                        .map(|a| {
+                            let src = a.aggregated_from.last().map(|s| s.to_string()).unwrap_or_default();
+                            let si = files.iter().position(|(u, _)| *u == src).unwrap();
+                            let i = files[si].1.wildcard_audits[k]
+                                .iter()
+                                .position(|b| b.same_audit_as(a) && b.notes == a.notes)
+                                .unwrap();
+                            sp("e", vec![eid(si, 1, k, i).to_string(), sfrom(&a.aggregated_from)])
+                        })
+                        .collect();
+                    items.sort();
+                    v.extend(items);
+                    sp("p", v)
+                })
+                .collect();
+            let trusted: Vec<String> = out
+                .trusted
+                .iter()
+                .map(|(k, l)| {
+                    let mut v = vec![nid(k).to_string()];
+                    let mut items: Vec<String> = l
+                        .iter()
+                        .map(|a| {
+                            let src = a.aggregated_from.last().map(|s| s.to_string()).unwrap_or_default();
+                            let si = files.iter().position(|(u, _)| *u == src).unwrap();
+                            let i = files[si].1.trusted[k]
+                                .iter()
+                                .position(|b| b.criteria == a.criteria && b.user_id == a.user_id
+                                    && b.start == a.start && b.end == a.end && b.notes == a.notes)
+                                .unwrap();
+                            sp("e", vec![eid(si, 2, k, i).to_string(), sfrom(&a.aggregated_from)])
+                        })
+                        .collect();
+                    items.sort();
+                    v.extend(items);
+                    sp("p", v)
+                })
+                .collect();
+            let crit: Vec<String> = out
+                .criteria
+                .iter()
+                .map(|(n, e)| {
+                    sp(
+                        "c",
+                        vec![
+                            cid(n).to_string(),
+                            e.description.as_ref().map(|d| tid(d).to_string()).unwrap_or("-".into()),
+                            e.description_url.as_ref().map(|d| tid(d).to_string()).unwrap_or("-".into()),
+                            sp("implies", e.implies.iter().map(|i| cid(i).to_string()).collect()),
+                            sfrom(&e.aggregated_from),
+                        ],
+                    )
+                })
+                .collect();
+            obs = sp(
+                "agg",
+                vec![sp(
+                    "ok",
+                    vec![sp("criteria", crit), sp("audits", audits), sp("wild", wild), sp("trusted", trusted)],
+                )],
+            );
+            // the output is itself a loadable audits file
+            let text = crate::serialization::to_formatted_toml(out.clone(), None).unwrap().to_string();
+            let back = crate::storage::foreign_audit_source_to_local_warn(
+                "aggregate",
+                crate::errors::SourceFile::new("aggregate", text.clone()),
+            );
+            extra.insert("reloads".to_owned(), json!(back.as_ref().map(|b| *b == out).unwrap_or(false)));
+            let strict: Result<AuditsFile, _> = toml::de::from_str(&text);
+            extra.insert("reloads_strict".to_owned(), json!(strict.map(|b| b == out).unwrap_or(false)));
+            extra.insert("text".to_owned(), json!(text));
+        }
+    }
+    json!({"status": "ok", "model_input": {"sources": m_sources}, "obs": obs, "extra": extra,
+           "tables": {"names": names, "criteria": crits, "urls": urls}})
+}
+
 fn panic_message(p: &Box<dyn std::any::Any + Send>) -> String {
     if let Some(s) = p.downcast_ref::<String>() {
         s.clone()
@@ -1890,6 +2188,7 @@ fn run_case(case: &Value) -> Value {
         "history" => run_history(case),
         "import" => run_import(case),
         "audit_as" => run_audit_as(case),
+        "aggregate" => run_aggregate(case),
         other => json!({"status": "harness_error", "error": format!("unknown kind {other}")}),
     }));
     let mut v = match r {
